@@ -17,3 +17,5 @@ open Fzf.Props.C02
 #print axioms C02_exact_total
 #print axioms C02_exact_sound
 #print axioms C02_exact_complete
+#print axioms C02_v2_sound_complete
+#print axioms C02_v2_phase2_greedy
